@@ -34,11 +34,10 @@ def run(c):
         ("Q(t+3) = Q(t)+2", "Init", "Periodic", True)]
     one = [("for all totals 1..2^31-1 and subset weights: no uint32 overflow, overflow-free form, whole set reaches Q, 3a <= 2t => a < Q, two quorums "
             "share > t/3, a >= Q <=> 3a > 2t, Q(t+3) = Q(t)+2 (one conjunction)", "Init", "AllClauses", True)]
-    obl = fnlib.Obligations(c, "fn", "QuorumApa", c.pick(one, each) + [
-        ("non-vacuity: with the total 2^31 admitted the uint32 evaluation overflows", "InitOver", "NoOverflow", False),
-        ("non-vacuity: intersection bound t/3+1 is refuted", "Init", "IntersectTooStrong", False),
-        ("non-vacuity: 3a <= 2t+3 may reach the quorum", "Init", "TwoThirdsTooStrong", False),
-    ], par=c.pick(2, 3))
+    neg = [("non-vacuity: with the total 2^31 admitted the uint32 evaluation overflows", "InitOver", "NoOverflow", False),
+           ("non-vacuity: intersection bound t/3+1 is refuted", "Init", "IntersectTooStrong", False),
+           ("non-vacuity: 3a <= 2t+3 may reach the quorum", "Init", "TwoThirdsTooStrong", False)]
+    obl = fnlib.Obligations(c, "fn", "QuorumApa", c.pick(one + neg[:1], each + neg), par=c.pick(2, 3))
     # ---- pattern R: the counter machine
     applied = 0
     reports = {}
